@@ -50,7 +50,9 @@ func runBatch(c *Ctx, drv *sut.Driver, jobs []harness.Job, race bool, timeout ti
 	// GOMAXPROCS=1: the simulator runs one task at a time anyway, and per-P caches
 	// (sync.Pool) would otherwise hide sharing between tasks that happen to sit on
 	// different Ps.
-	env := []string{"PATH=/usr/bin:/bin", "HOME=" + dir, "GOMAXPROCS=1"}
+	srcDir := filepath.Join(c.Root, "src")
+	os.MkdirAll(srcDir, 0o755)
+	env := []string{"PATH=/usr/bin:/bin", "HOME=" + dir, "GOMAXPROCS=1", "VERIF_SRCDIR=" + srcDir}
 	for _, j := range jobs {
 		if j.Free {
 			env[2] = "GOMAXPROCS=4" // observation mode: real parallel goroutines
